@@ -20,6 +20,7 @@ void c12_inst(RootMeshNode<Mesh_>& node, Mesh_& mesh, MeshPart<Mesh_>& part, con
   node.extract_patch(ranks, g, 0);
   node.extract_patch(std::vector<Index>(), true, true, true);
   node.refine_unique();
+  node.rename_halos(std::map<int,int>());
   PatchHaloFactory<Mesh_> hf(g, mesh, part);
   hf.build(Index(0));
   hf.make_unique();
